@@ -24,6 +24,19 @@ pub struct SrcState { pub pos: usize, pub pend_run: usize, pub errors: usize, pu
 pub struct ScriptSrc { data: Rc<Vec<u8>>, st: Rc<RefCell<SrcState>>, ch: Shared, b: Bounds }
 
 impl AsyncRead for ScriptSrc {
+    /// Native scatter read when the run asks for it (what sockets and buffered readers provide): one scripted outcome for the
+    /// whole list of buffers, the delivered bytes filling them in order - a delivery may end anywhere, also inside a later buffer.
+    fn poll_read_vectored(self: Pin<&mut Self>, cx: &mut Context<'_>, bufs: &mut [io::IoSliceMut<'_>]) -> Poll<io::Result<usize>> {
+        if !crate::sched::vectored_src() {
+            return match bufs.iter_mut().find(|b| !b.is_empty()) { Some(b) => self.poll_read(cx, b), None => self.poll_read(cx, &mut []) }
+        }
+        let total: usize = bufs.iter().map(|b| b.len()).sum();
+        let mut tmp = vec![0u8; total];
+        match self.poll_read(cx, &mut tmp) {
+            Poll::Ready(Ok(n)) => { let mut at = 0; for b in bufs.iter_mut() { if at >= n { break } let k = b.len().min(n - at); b[.. k].copy_from_slice(&tmp[at .. at + k]); at += k } Poll::Ready(Ok(n)) }
+            other => other
+        }
+    }
     fn poll_read(self: Pin<&mut Self>, cx: &mut Context<'_>, buf: &mut [u8]) -> Poll<io::Result<usize>> {
         let this = self.get_mut();
         let mut s = this.st.borrow_mut();
@@ -177,6 +190,8 @@ fn exhaustive(i: u64, st: &mut Stats, b: Bounds, cap: u64) -> CaseResult {
     // the injected error's kind varies with the stream (UnexpectedEof is also what the reader itself reports at a torn end)
     crate::sched::set_err_kind(crate::sched::ERR_KINDS[(i as usize / split_count()) % 3]);
     let mut nontrivial = 0u64;
+    // every second stream is delivered by a source with a native scatter read
+    crate::sched::set_vectored_src((i as usize / split_count()) % 2 == 1);
     let (count, done) = dfs(&fixed, cap, |ch| {
         let info = run_schedule(vals, &stream, complete, on_boundary, ch, b)?;
         if info.drops_mid_frame > 0 { nontrivial += 1 }
@@ -206,6 +221,10 @@ fn random_walk(g: &mut Gen, st: &mut Stats) -> CaseResult {
     let ctor = crate::sched::draw_prebuf(g);
     let kind = *g.pick(&crate::sched::ERR_KINDS);
     crate::sched::set_err_kind(kind);
+    // (drawn last so that earlier tapes keep their meaning) does the source scatter natively?
+    let vectored = g.bool();
+    crate::sched::set_vectored_src(vectored);
+    if vectored { st.class("walk/source with native poll_read_vectored") }
     // a maximum that every frame of the walk respects: the default, the top of the u32 range, or exactly the largest frame
     let largest = vals.iter().map(|v| v.encoded().len()).max().unwrap_or(0) as u32;
     crate::sched::READER_MAX.with(|c| c.set(match g.below(8) { 0 => Some(u32::MAX), 1 => Some(u32::MAX - 3), 2 => Some(largest), 3 => Some(largest.max(1) + 1), _ => None }));
